@@ -74,7 +74,8 @@ def staircase(n_ens, ens_num, last, weight=1):
 class Sim:
     """one real REPEX_state + the mirrored line protocol for the Lean driver"""
 
-    def __init__(self, ctx, n_ens, workers, steps, seed=0, wf=False, eng_types=1, cstep=0, image=None, rng=None):
+    def __init__(self, ctx, n_ens, workers, steps, seed=0, wf=False, eng_types=1, cstep=0, image=None, rng=None,
+                 screen=0):
         from infretis.classes import repex as R
         self.R = R
         self.ctx = ctx
@@ -102,7 +103,7 @@ class Sim:
                            "shooting_moves": ["wf" if wf else "sh"] * n_ens,
                            "tis_set": {"lambda_minus_one": False, "maxlength": 100}, "load_dir": "load",
                            "ensemble_engines": ens_engs},
-            "output": {"screen": 0, "data_dir": "./", "data_file": "./infretis_data.txt", "delete_old": False},
+            "output": {"screen": screen, "data_dir": "./", "data_file": "./infretis_data.txt", "delete_old": False},
         }
         if image is not None:
             cfg["current"].update(image)
